@@ -673,6 +673,49 @@ def run_c16(tier, seed, wd, info, verdict):
             verdict.violation("%s:concurrent:%s" % (violated, (bad_line or {}).get("msg", "reply")),
                               "concurrent key-generation messages from peers and non-peers (%s): rejected by %s invariant %s at %s %s" % (sid, module, violated, bad_line, extra[1]),
                               dict(scenario=sc, trace=[bad_line], invariant=violated, module=module, storm=True))
+    # (e) "shares go to their owner" on the SENDING side: a peer's Prepare carries a participant list that binds an identifier to another
+    #     name:port than the receiver's own configuration (a non-peer host, another peer's address, an identifier nobody has); the
+    #     receiver's Execute then swaps contributions - every message it sends must go to the endpoint ITS configuration gives for the
+    #     identifier (the harness network delivers by name and port and logs anything else as Misdelivery)
+    bscs2 = []
+    binds = [({"3": "client-test01:9999"}, [1, 2, 3]), ({"3": "signer-2:10002"}, [1, 2, 3]), ({"2": "c1:7777"}, [1, 2, 3]), ({"9": "signer-3:10003"}, [1, 2, 9]),
+             ({"2": "signer-3:10003", "3": "signer-2:10002"}, [1, 2, 3]), ({}, [1, 2, 3])]
+    for bi, (bind, parts_) in enumerate(binds):
+        for caller in ("signer-2", "signer-3"):
+            bscs2.append(dict(id="C16-bind-%d-%s" % (bi, caller), ids=[1, 2, 3], n=3, t=2, initiator=1, account="DW/unused", generate=False, calls=[
+                dict(inst=1, caller=caller, msg="prepare", account="DW/bind%d" % bi, t=2, participants=parts_, bind=bind),
+                dict(inst=2, caller=caller, msg="prepare", account="DW/bind%d" % bi, t=2, participants=parts_, bind=bind),
+                dict(inst=3, caller=caller, msg="prepare", account="DW/bind%d" % bi, t=2, participants=parts_, bind=bind),
+                dict(inst=1, caller=caller, msg="execute", account="DW/bind%d" % bi),
+                dict(inst=2, caller=caller, msg="execute", account="DW/bind%d" % bi)]))
+    bby = run_parallel(bscs2, wd, "c16bind", workers=4)
+    blines, bindex, nmsg = [], [], 0
+    for sc in bscs2:
+        evs = bby.get(sc["id"])
+        if evs is None:
+            raise Inconclusive("scenario %s produced no events" % sc["id"])
+        start = len(blines) + 1
+        blines.append(dict(ev="Begin", sc=sc["id"]))
+        for e in evs:
+            if e["ev"] == "Misdelivery":
+                blines.append(dict(ev="Misdelivery", id=e["id"], name=e["name"], port=e["port"], reached=e["reached"], **{"from": e["from"]}))
+            elif e["ev"] == "Msg" and e["type"] == "contribute":
+                nmsg += 1
+        bindex.append((start, len(blines), sc["id"]))
+    if nmsg < 6:
+        raise Inconclusive("bound participant lists: only %d contribution messages were sent" % nmsg)
+    ok, violated, pos, extra = validate("SessionTrace", blines, ["PeersOnly"], wd, name="SessionTraceBind")
+    tr = extra if ok else extra[0]
+    info["states"] += tr.distinct
+    info["transitions"] += tr.generated
+    if not ok:
+        sid = locate(bindex, pos)
+        sc = [s_ for s_ in bscs2 if s_["id"] == sid][0]
+        verdict.violation("%s:misdelivery:%s" % (violated, json.dumps(sc["calls"][0].get("bind"), sort_keys=True)),
+                          "%s: after a Prepare whose participant list binds %s, the instance sent a key-generation share to an endpoint that is not the configured peer "
+                          "of that identifier: %s %s" % (sid, sc["calls"][0].get("bind"), blines[pos - 2] if pos and pos >= 2 else "", extra[1]),
+                          dict(scenario=sc, trace=[blines[pos - 2]] if pos and pos >= 2 else [], invariant=violated, module="SessionTrace", bind=True))
+    res["participant_lists_binding_other_endpoints"] = dict(scenarios=len(bscs2), contribution_messages=nmsg)
     res["concurrent_arrival"] = dict(scenarios=len(ssc), non_peer_calls_made=sum(e["non_peer_calls"] for sc_ in ssc for e in sby[sc_["id"]] if e["ev"] == "StormEnd"),
                                      non_peer_calls_in_trace=nconc, contribution_replies_to_peers=nrep)
     # (c) the same boundary over the REAL transport: every key-generation method x every kind of caller credential (no certificate,
@@ -903,6 +946,17 @@ def replay(prop, path):
     wd = workdir(prop + "-replay")
     try:
         sc = obj["scenario"]
+        if obj.get("bind"):
+            evs, rc, err = run_dkgdrv([sc], wd, "replay")
+            ls = [dict(ev="Begin", sc=sc["id"])] + [dict(ev="Misdelivery", id=e["id"], name=e["name"], port=e["port"], reached=e["reached"], **{"from": e["from"]}) for e in evs if e["ev"] == "Misdelivery"]
+            for ln in ls:
+                print(json.dumps(ln))
+            ok, violated, pos, extra = validate("SessionTrace", ls, ["PeersOnly"], wd)
+            if ok:
+                print("replay: run accepted")
+                return 0
+            print("VIOLATION property=%s replay=%s" % (prop, path))
+            return 1
         if obj.get("conc"):
             # timing-dependent: the same concurrent generations are requested again, several times
             for attempt in range(6):
